@@ -131,6 +131,34 @@ add({"name": "smells_like_watford", "file": ID,
                (r"(for \(pos = 8; pos <= last_catalog_entry_pos; pos \+= 8\))", r"\1 WATFORD_LOOP_CONTRACT", 1)],
      "dropped": ["eliminated_format(...) diagnostics (verbose-only stderr text)"]})
 
+# smells_like_opus_ddos (C13 "Opus DDOS only when sector 16 holds a self-consistent volume table"): the decision structure; the
+# OpusDiscCatalogue constructor and CatalogFragment::valid it relies on have their own contracts (recording models here)
+SS = r"std::ostringstream ss;(?:[^;\"]|\"(?:[^\"\\]|\\.)*\")*;(?:\s*ss\b(?:[^;\"]|\"(?:[^\"\\]|\\.)*\")*;)*"
+add({"name": "smells_like_opus_ddos", "file": ID,
+     "anchor": r"bool smells_like_opus_ddos\(DFS::DataAccess& media, DFS::sector_count_type\* sectors\)",
+     "sig": "static bool smells_like_opus_ddos(struct DataAccess *media, sector_count_type *sectors)",
+     "rules": [(r"std::optional<DFS::SectorBuffer> got = media\.read_block\(16\);", "opt_SectorBuffer got = DataAccess_read_block(media, 16);", 1),
+               (r"if \(!got\)", "if (!got.has)", 1),
+               (r"const DFS::SectorBuffer& sector16\(\*got\);", "const SectorBuffer *sector16_ = &got.val;", 1),
+               (r"\bsector16\[", "sector16_->d[", ">=3"),
+               (SS, "", ">=1"),
+               (r"eliminated_format\(DFS::Format::OpusDDOS,(?:[^;\"]|\"(?:[^\"\\]|\\.)*\")*;", "eliminated_model();", ">=5"),
+               (r"std::vector<DFS::internal::OpusDiscCatalogue::VolumeLocation> locations;", "size_t locations_n = 0;", 1),
+               (r"try\s*\{\s*DFS::internal::OpusDiscCatalogue opus_disc_cat\(sector16, std::nullopt\);\s*locations = opus_disc_cat\.get_volume_locations\(\);\s*\}\s*catch \(BadFileSystem& e\)\s*\{",
+                "locations_n = opus_catalogue_model(sector16_);   /* constructor without a geometry + get_volume_locations */\n    if (g_exc == EXC_BadFileSystem)\n      { g_exc = EXC_NONE;", 1),
+               (r"locations\.empty\(\)", "(locations_n == 0)", 1),
+               (r"if \(DFS::verbose\)\s*\{[^{}]*\}", "/* verbose dropped */", ">=0"), (r"if \(DFS::verbose\)\s*std::cerr <<[^;]*;", "/* verbose dropped */", ">=0"),
+               (r"for \(const auto& loc : locations\)\s*\{", "for (size_t li_ = 0; li_ < locations_n; ++li_) OPUS_SMELL_LOOP_CONTRACT\n      { const struct VolumeLocation *loc = &h_locs[li_];", 1),
+               ASSERT(">=0"), (r"\bloc\.start_sector\(\)", "loc->start_sector_", ">=0"),
+               (r"DFS::Volume vol\(DFS::Format::OpusDDOS,\s*([^;]*?),\s*media\);\s*const DFS::Catalog& root\(vol\.root\(\)\);\s*std::string error;\s*if \(!root\.valid\(error\)\)",
+                r"if (!volume_root_valid_model(\1, media))", 1),
+               (r"\bloc\.catalog_location\(\)", "loc->catalog_location_", 1), (r"\bloc\.len\(\)", "loc->len_", 1),
+               (r"auto sector_to_read = DFS::sector_count\(", "const sector_count_type sector_to_read = sector_count(", 1),
+               (r"auto last = media\.read_block\(sector_to_read\);", "opt_SectorBuffer last = DataAccess_read_block(media, sector_to_read);", 1),
+               (r"if \(!last\)", "if (!last.has)", 1),
+               (r"\*sectors = DFS::sector_count\(", "*sectors = sector_count(", 1)],
+     "dropped": ["eliminated_format(...) diagnostics (verbose-only stderr text)", "the Volume / Catalog objects built per volume (their validity check is a recording model)"]})
+
 # probe order (C13): smells_like_acorn_dfs and probe_format; every probe call goes through a recording wrapper (PF_*)
 add({"name": "smells_like_acorn_dfs", "file": ID,
      "anchor": r"bool smells_like_acorn_dfs\(DFS::DataAccess& media, const DFS::SectorBuffer& sec1,\s*std::string& error\)",
@@ -703,7 +731,7 @@ add({"name": "extract_files_visitor", "file": "dfs/cmd_extract_files.cc",
      "pre": "#define outfile (&ofs_obj)\n", "post": "#undef outfile\n",
      "rules": [(r"crc\.update\(begin, end\);", "crc_update_model(begin, end);", 1),
                (r"outfile\.write\(reinterpret_cast<const char\*>\(([^)]*)\),\s*([^;]*)\);", r"ofs_write_n(outfile, \1, (size_t)(\2));", 1),
-               (r"!outfile\b(?!\.)", "!ofs_ok(outfile)", ">=0"), (r"!outfile\.good\(\)", "!ofs_ok(outfile)", ">=0"),
+               (r"!outfile\b(?!\.)", "!ofs_ok(outfile)", ">=0"), (r"!outfile\.good\(\)", "!ofs_ok(outfile)", ">=0"), (r"\boutfile\.bad\(\)", "ofs_badbit(outfile)", ">=0"), (r"\boutfile\.fail\(\)", "(!ofs_ok(outfile))", ">=0"),
                (r"std::cerr << [^;]*;", "g_diag++;  /* diagnostic text dropped */", ">=0")],
      "dropped": ["diagnostic text"]})
 add({"name": "extract_files_write_body", "file": "dfs/cmd_extract_files.cc",
@@ -713,7 +741,7 @@ add({"name": "extract_files_write_body", "file": "dfs/cmd_extract_files.cc",
      "rules": [(r"std::ofstream outfile\(output_body_file, std::ofstream::out\);", "ofs_open(outfile);", 1),
                (r"auto ok = entry\.visit_file_body_piecewise\s*\(mounted->volume\(\)->data_region\(\),\s*\[&crc, &outfile, &output_body_file\].*?\}\);", "_Bool ok = visit_body_model();", 1),
                (r"outfile\.close\(\);", "ofs_close(outfile);", 1),
-               (r"!outfile\b(?!\.)", "!ofs_ok(outfile)", ">=0"), (r"!outfile\.good\(\)", "!ofs_ok(outfile)", ">=0"),
+               (r"!outfile\b(?!\.)", "!ofs_ok(outfile)", ">=0"), (r"!outfile\.good\(\)", "!ofs_ok(outfile)", ">=0"), (r"\boutfile\.bad\(\)", "ofs_badbit(outfile)", ">=0"), (r"\boutfile\.fail\(\)", "(!ofs_ok(outfile))", ">=0"),
                (r"std::cerr << [^;]*;", "g_diag++;  /* diagnostic text dropped */", ">=0")],
      "dropped": ["diagnostic texts", "the visitor lambda (extracted separately: extract_files_visitor)"]})
 
@@ -870,7 +898,9 @@ add({"name": "case_insensitive_equal", "file": "dfs/stringutil.cc", "anchor": r"
 add({"name": "CatalogEntry_has_name", "file": "dfs/dfs_catalog.cc", "anchor": r"bool CatalogEntry::has_name\(const ParsedFileName& wanted\) const",
      "sig": "static bool CatalogEntry_has_name(const struct CatalogEntry *self, const struct ParsedFileNameM *wanted)",
      "rules": [(r"#if VERBOSE_FOR_TESTS.*?#endif", "/* test-only diagnostics dropped */", ">=0"),
-               (r"wanted\.dir != directory\(\)", "wanted->dir != CatalogEntry_directory(self)", 1),
+               (r"\bwanted\.dir\b", "wanted->dir", ">=1"), (r"\bdirectory\(\)", "CatalogEntry_directory(self)", ">=1"),
+               (r"\btoupper\(", "verif_toupper(", ">=0"), (r"\btolower\(", "verif_tolower(", ">=0"),
+               (r"static_cast<(unsigned char|char|int)>\(", r"(\1)(", ">=0"),
                (r"const std::string trimmed_name\(stringutil::rtrim\(name\(\)\)\);", "const struct cstr trimmed_name = cstr_rtrim(CatalogEntry_name(self));", 1),
                (r"stringutil::case_insensitive_equal\(wanted\.name, trimmed_name\)", "case_insensitive_equal(&wanted->name, &trimmed_name)", 1)]})
 
@@ -1044,7 +1074,7 @@ add({"name": "opus_ctor_head", "file": "dfs/opus_cat.cc",
      "region_epilogue": "}\n",
      "dropped": ["diagnostic text"]})
 add({"name": "opus_volume_table", "file": "dfs/opus_cat.cc",
-     "anchor": r"static const char labels\[\] = \"ABCDEFGH\";", "region_end": r"std::sort\(locations_\.begin\(\), locations_\.end\(\)\);",
+     "anchor": r"static const char labels\[\] = \"ABCDEFGH\";", "region_end": r"std::sort\(locations_\.begin\(\), locations_\.end\(\)\);|unsigned long next_sector = total_disc_sectors_;",
      "sig": "static void opus_volume_table(struct OpusCatM *self, const SectorBuffer *sector16, const struct Geometry *geom)",
      "pre": OC_PRE, "post": OC_POST,
      "rules": [(r"\bsector16\[", "sector16->d[", 1), ASSERT(">=0"),
